@@ -101,6 +101,8 @@ def case_keypoints(**p):
       lo, hi = z3.Real('lo'), z3.Real('hi')
       assume += [lo < hi, lo >= -8, hi <= 8]
       names.update(lo=lo, hi=hi)
+    if p.get('sorted_distinct'):
+      assume += [v[i] < v[i + 1] for i in range(n - 1)]
     if p.get('default'):
       dv = z3.Real('dv')
       names['dv'] = dv
@@ -162,6 +164,7 @@ def case_keypoints(**p):
   if verdict == 'sat':
     v0 = out['violations'][0]
     res['witness'] = v0.get('model', {})
+    res['weak_witness'] = True   # exact-arithmetic witness (may sit on a rounding tie): a non-reproducing one is inconclusive
     res['sig'] = dict(query='keypoints', mode=mode, weighted=bool(p.get('weights')), kind=v0['kind'],
                       exception=(v0.get('exception') or '').split(':')[0])
     res['replay'] = dict(fn='keypoints', params=p)
@@ -278,6 +281,8 @@ def cases(tier, seed):
   add(n=3, k=3, mode='quantiles', weights=True, reduction='sum')
   add(n=3, k=2, mode='quantiles', weights=True, default=True)
   add(n=2, k=3, mode='quantiles', weights=True, clip=True, required=False, budget=400)
+  add(n=4, k=4, mode='quantiles', weights=True, reduction='sum', sorted_distinct=True, budget=400, max_paths=20000)
+  add(n=5, k=4, mode='quantiles', weights=True, sorted_distinct=True, required=False, budget=400, max_paths=20000)
   out.append(dict(name='config-helpers', fn='case_config_helpers', params=dict(name='config-helpers', seed=seed), cap=300))
   if tier == 'thorough':
     add(n=4, k=3, mode='quantiles', weights=True, required=False, budget=1500, max_paths=40000, cap=2400)
